@@ -42,7 +42,11 @@ func genC06(t *rapid.T) *Case {
 	kinds = append(kinds, "AddSpaceWhenStrippingTag", "AddSpaceWhenStrippingTag", "AddSpaceWhenStrippingTag", "AllowElementsContent", "AllowElementsContent", "AllowComments")
 	spec, dropped := genSpecNoRawText(t, &SpecOpts{Kinds: kinds})
 	m := BuildModel(spec)
-	els := []string{"textarea", "title", "xmp", "b", "i", "p"}
+	if rapid.IntRange(0, 5).Draw(t, "unsafe") == 0 {
+		// AllowUnsafe only concerns script and style, of which the inputs here are free
+		spec.Ops = append(spec.Ops, Op{Kind: "AllowUnsafe", B: true, ValRe: -1})
+	}
+	els := []string{"textarea", "title", "xmp", "b", "i", "p", "pre", "listing", "img", "input", "hr", "link"}
 	in := genSoup(t, m, &soupOpts{els: els})
 	if rapid.IntRange(0, 5).Draw(t, "corpusInput") == 0 {
 		in = genCorpusMutation(t)
@@ -190,6 +194,12 @@ func checkC06(c *Case, r *Rec) error {
 		return nil // outside the property's policy class
 	}
 	in := string(c.Input)
+	if m.unsafe && hasTagNamed(tokenize(in), map[string]bool{"script": true, "style": true}) {
+		// with AllowUnsafe the raw text of a kept script / style element is written raw by design;
+		// the property speaks of inputs free of script and style
+		r.Excluded("allow_unsafe_with_script_or_style_in_the_input")
+		return nil
+	}
 	var out string
 	if len(c.Ints) > 1 && c.Ints[1] == 1 && strings.TrimSpace(in) != "" {
 		out = Build(c.Spec, nil).SanitizeReader(struct{ io.Reader }{strings.NewReader(in)}).String()
